@@ -74,7 +74,7 @@ Cmds ==
          sem |-> [query |-> q[2], key |-> kp[2], props |-> kp[3], nocomp |-> nc]] : q \in Queries, nc \in BOOLEAN, kp \in KeyProps}
 
 All == SetToSeq({<<s, c>> : s \in Streams, c \in {x \in Cmds : x.cmd \in CmdSet}})
-Picked == SelectSeq([j \in 1..Len(All) |-> j], LAMBDA j : j % Stride = Offset % Stride)
+Picked == SelectSeq([j \in 1..Len(All) |-> j], LAMBDA j : (j + (j \div Stride) + (j \div (Stride * Stride))) % Stride = Offset % Stride)
 
 CaseJson(j) ==
   LET x == All[j] IN
